@@ -168,7 +168,7 @@ def frame(msg: Message) -> bytes:
 
 class CaseInfo:
     __slots__ = ("choices", "tape", "cycles", "preempt", "timeouts", "n_sub_files", "n_expected", "paused_msgs",
-                 "log", "restarts")
+                 "log", "restarts", "pruned")
 
     def __init__(self):
         self.choices = []
@@ -181,6 +181,7 @@ class CaseInfo:
         self.paused_msgs = 0
         self.log = []
         self.restarts = 0
+        self.pruned = False
 
 
 def _trace(datasets, history, tape):
@@ -303,7 +304,7 @@ def _read_ql(path, defs_path):
 READERS = {"raw": _read_raw, "json": _read_json}
 
 
-def run_case(datasets, history, tape, want_log=False) -> CaseInfo:
+def run_case(datasets, history, tape, want_log=False, sleep_sets=False, max_after=None) -> CaseInfo:
     """Execute one case; pure function of its arguments.  Raises Violation when C17 does not hold on it.
 
     datasets: [{"fmt": raw|json|quicklogger, "types": "ALL" | [indices into TYPES], "subdiv": 0 | seconds}]
@@ -313,7 +314,7 @@ def run_case(datasets, history, tape, want_log=False) -> CaseInfo:
     """
     info = CaseInfo()
     tmp = tempfile.mkdtemp(prefix="c17-", dir="/tmp")
-    sched = Scheduler(tape)
+    sched = Scheduler(tape, sleep_sets=sleep_sets, max_after_switches=max_after)
     clock = VirtualClock(sched)
     saved = (dc_mod.threading, dc_mod.time)
     coll = None
@@ -416,6 +417,7 @@ def run_case(datasets, history, tape, want_log=False) -> CaseInfo:
 
         # ---- bookkeeping about the schedule (before any clean-up scheduling)
         info.choices = list(sched.choices)
+        info.pruned = sched.pruned
         info.tape = sched.normalised_tape()
         wt = getattr(getattr(coll, "write_thread", None), "_t", None) if coll is not None else None
         if wt is not None:
@@ -661,18 +663,20 @@ FIXED_DFS = [
 ]
 
 
-def dfs_history(res: Result, datasets, history, limit, tag="dfs-"):
+def dfs_history(res: Result, datasets, history, limit, tag="dfs-", max_after=1):
     """Enumerate every schedule of one history.  Violations are collected per key; returns (#schedules, complete)."""
     nt = [0]
 
     def one(prefix):
         try:
-            info = run_case(datasets, history, prefix)
+            info = run_case(datasets, history, prefix, sleep_sets=True, max_after=max_after)
         except Violation as v:
             res.add_finding(v.key, v.what + " [found by exhaustive schedule enumeration]", v.trace)
             res.evaluations += 1
             return v.choices
         res.evaluations += 1
+        if info.pruned:
+            res.count("dfs-schedules-equivalent-to-earlier(sleep-set)")
         if _account(res, datasets, history, info, tag):
             nt[0] += 1
         return info.choices
